@@ -42,6 +42,9 @@ TECMP::LinPayload::LinPayload()
 TECMP::LinPayload::LinPayload(const uint8_t* data, const size_t size)
     : Payload(TECMP::PayloadType::lin, data, size)
 {
+    // The header and the announced number of data bytes have to be inside the payload
+    if (size < sizeof(Header) || getDataLength() > size - sizeof(Header))
+        type = TECMP::PayloadType::invalid;
 }
 const uint8_t* TECMP::LinPayload::getData() const
 {
